@@ -7,7 +7,6 @@ import (
 
 	ad "github.com/pbenner/autodiff"
 	st "github.com/pbenner/autodiff/statistics"
-	sd "github.com/pbenner/autodiff/statistics/scalarDistribution"
 
 	"verifharness/internal/fw"
 	"verifharness/internal/prng"
@@ -431,12 +430,19 @@ type stdCdf interface {
 	LogCdf(r ad.Scalar, x ad.ConstScalar) error
 }
 
+// vecCdf is the shape of LaplaceDistribution.Cdf / LogCdf on the unchanged
+// tree (the argument is a Vector of length one).
+type vecCdf interface {
+	Cdf(r ad.Scalar, x ad.Vector) error
+	LogCdf(r ad.Scalar, x ad.Vector) error
+}
+
 // cdfFns returns Cdf and LogCdf of a distribution that offers them.
 func cdfFns(d st.ScalarPdf) (cdf, lcdf cdfFn) {
 	switch v := d.(type) {
 	case stdCdf:
 		return v.Cdf, v.LogCdf
-	case *sd.LaplaceDistribution: // takes a Vector
+	case vecCdf:
 		wrap := func(x ad.ConstScalar) ad.Vector {
 			t := x.Type()
 			if t == ad.ConstFloat64Type {
